@@ -20,7 +20,12 @@ def rundemo():
 try:
     if not a.no_confirm: res["demo_head"] = rundemo()
     rc, out = sh("git apply " + patch)
-    if rc: sys.exit("patch does not apply: " + out)
+    if rc:
+        rc, out = sh("patch -p1 -F3 --no-backup-if-mismatch < " + patch)
+        res["applied_with_fuzz"] = True
+    if rc:
+        sh("git checkout -- . ; git clean -fdq -- mathy_core")
+        sys.exit("patch does not apply: " + out)
     if not a.no_confirm:
         res["demo_patched"] = rundemo()
         rc, out = sh("/venv/bin/python -m pytest -q -p no:cacheprovider --timeout=900 -x 2>&1 | tail -3")
@@ -32,5 +37,5 @@ try:
         viol = [l for l in out.splitlines() if l.startswith("VIOLATION")]
         res["checks"][c] = {"rc": rc, "violations": viol[:6], "n_viol": len(viol), "s": round(time.time() - t0, 1), "tail": out.strip().splitlines()[-1:] }
 finally:
-    sh("git checkout -- . ")
+    sh("git checkout -- . ; git clean -fdq -- mathy_core")
 print(json.dumps(res, indent=1))
